@@ -71,9 +71,10 @@ pub fn run_c08(prop: &str, seed: u64, index: usize, tier: Tier) -> RunReport {
         rep.evaluations = 1;
         return rep;
     };
+    // the frame layout found by the independent parser is only used to aim the damage: if it disagrees with the
+    // crate about a clean image (C07 reports that), the frames it did find are used and the rest is hit at random
     if !parsed.problems.is_empty() {
-        rep.harness_errors.push(format!("independent parser reports problems on a clean image: {:?}", &parsed.problems[..1]));
-        return rep;
+        rep.count("clean_images_the_independent_parser_disagrees_with", 1);
     }
     let mut rng = Rng::new(mix(&[seed, 0xC08]));
     let n_cases = if thorough { 300 } else { 30 };
@@ -81,7 +82,14 @@ pub fn run_c08(prop: &str, seed: u64, index: usize, tier: Tier) -> RunReport {
     let mut dg = Digest::new();
     for ci in 0..n_cases {
         let n_ops = 1 + rng.usize_below(4).min(rng.usize_below(4));
-        let ops: Vec<DamageOp> = (0..n_ops).map(|_| aimed_overwrite(&parsed, &image, &mut rng)).collect();
+        let ops: Vec<DamageOp> = if ci % 5 == 4 {
+            crate::damage::correlated_damage(&parsed, &mut rng)
+        } else {
+            (0..n_ops).map(|_| aimed_overwrite(&parsed, &image, &mut rng)).collect()
+        };
+        if ops.is_empty() {
+            continue;
+        }
         let damaged = apply_damage(&image, &ops);
         let ev = judge(prop, Some(&d), &d.names, policy, &case.knobs, &damaged, None, &format!("damage {:?}", ops));
         rep.evaluations += 1;
@@ -129,9 +137,14 @@ pub fn run_c09(prop: &str, seed: u64, index: usize, tier: Tier) -> RunReport {
         rep.evaluations = 1;
         return rep;
     };
-    if !parsed.problems.is_empty() {
-        rep.harness_errors.push(format!("independent parser reports problems on a clean image: {:?}", &parsed.problems[..1]));
+    // a checksum disagreement leaves the frame boundaries and entry contents usable; anything else does not
+    if parsed.problems.iter().any(|p| !p.starts_with("crc mismatch")) {
+        rep.count("clean_images_skipped_parser_structure_disagreement", 1);
+        rep.evaluations = 1;
         return rep;
+    }
+    if !parsed.problems.is_empty() {
+        rep.count("clean_images_the_independent_parser_disagrees_with", 1);
     }
     let mut rng = Rng::new(mix(&[seed, 0xC09]));
     let policy = d.world.policy;
@@ -330,8 +343,8 @@ pub fn run_c10(prop: &str, seed: u64, index: usize, tier: Tier) -> RunReport {
 /// Damage half of C12: every frame of batch entries gets payload and header damage; plus multi-site damage.
 pub fn c12_damage(prop: &str, seed: u64, case: &crate::case::Case, thorough: bool, rep: &mut RunReport) {
     let Some((d, image, parsed)) = base_image(case) else { return };
-    if !parsed.problems.is_empty() {
-        rep.harness_errors.push(format!("independent parser reports problems on a clean image: {:?}", &parsed.problems[..1]));
+    if parsed.problems.iter().any(|p| !p.starts_with("crc mismatch")) {
+        rep.count("clean_images_skipped_parser_structure_disagreement", 1);
         return;
     }
     let mut rng = Rng::new(mix(&[seed, 0xC12D]));
@@ -357,7 +370,7 @@ pub fn c12_damage(prop: &str, seed: u64, case: &crate::case::Case, thorough: boo
                 ops_list.push(vec![op]);
             }
         }
-        let hv: Vec<u8> = if thorough { (0..4).collect() } else { vec![rng.below(4) as u8] };
+        let hv: Vec<u8> = if thorough { (0..6).collect() } else { vec![rng.below(6) as u8, 4 + rng.below(2) as u8] };
         for v in hv {
             if let Some(op) = frame_header_damage(&parsed, fi, v, &mut rng) {
                 ops_list.push(vec![op]);
